@@ -132,7 +132,7 @@ def run_lines(exe, lines, prefix, timeout=900):
             break
         crashes.append((start + n, crash_site(r.stderr), r.stderr[-3000:]))
         start = start + n + 1
-        if len(crashes) > 200:
+        if len(crashes) >= 25:
             break
     return out, crashes
 
